@@ -349,15 +349,7 @@ class Runner:
         ttag, truth = self.truth
         added, unchanged, deleted = self.hist()
         self.updates.clear()
-        try:
-            self.sess.flush()
-        except KeyError as e:
-            st = self.sa.inspect(self.a)
-            if self.kind == "scalar" and tag == "absent" and e.args == (self.key,):
-                self.violations.append(("flush-after-del-scalar-keyerror", "del obj.%s then flush: _collect_update_commands raises KeyError(%r) (history before flush %r)" % (self.key, self.key, (added, unchanged, deleted))))
-                self.sess.rollback()
-                return
-            raise
+        self.sess.flush()
         st = self.sa.inspect(self.a)
         # what flush must have persisted: the current value (a missing scalar is NULL)
         if tag == "val":
